@@ -274,6 +274,25 @@ def generate():
                 fa = fmt_args(st)
                 if fa:
                     fmts.append("(%s, %s, %s)" % (coq_str(cname), coq_str(st.name), coq_list(coq_str(x) for x in fa)))
+    # constructors: parameter list (with defaults) and every statement of each __init__ defined in the
+    # anchored modules, as text; the harness builds messages through these constructors and
+    # Pdu.modelled_ctors (what the expected-instance model of props/lib_pdu.py was written against) is
+    # proved equal to this list, so an edited constructor breaks a proof (fail closed)
+    ctors = []
+    for cname in sorted(w.classes):
+        s_, node = w.classes[cname]
+        for st in node.body:
+            if isinstance(st, ast.FunctionDef) and st.name == "__init__":
+                a = st.args
+                if a.posonlyargs or a.kwonlyargs or a.vararg:
+                    s_.fail(st, "%s.__init__: unsupported parameter kinds" % cname)
+                names = [x.arg for x in a.args]
+                defaults = [None] * (len(names) - len(a.defaults)) + [ast.unparse(d) for d in a.defaults]
+                sig = ", ".join(n if d is None else "%s=%s" % (n, d) for n, d in zip(names, defaults))
+                if a.kwarg is not None:
+                    sig += ", **" + a.kwarg.arg
+                stmts = [" ".join(ast.unparse(x).split()) for x in st.body if not is_docstring(x) and not is_log_call(x)]
+                ctors.append("(%s, %s, %s)" % (coq_str(cname), coq_str(sig), coq_list(coq_str(x) for x in stmts)))
     # module-level packed constants of bit_write_message
     bw = [s for s in w.srcs if s.rel.endswith("bit_write_message.py")][0]
     for nm, want in (("_turn_coil_on", "ModbusStatus.On"), ("_turn_coil_off", "ModbusStatus.Off")):
@@ -334,6 +353,7 @@ def generate():
     lst("enc_layouts", "list (cls * (bool * list fmtc * list string))", encs)
     lst("dec_layouts", "list (cls * (bool * list fmtc * list string))", decs)
     lst("struct_fmts", "list (string * string * list string)", fmts)
+    lst("ctor_sigs", "list (string * string * list string)", ctors)
     lst("exception_codes", "list (string * Z)", exc_codes)
     for k, v in consts:
         out.append("Definition %s : Z := %s." % (k, coq_z(v)))
